@@ -810,6 +810,33 @@ def build_all(ctx, variant_pool=False):
     return info, priv
 
 
+def run_util(ctx, info, prop_bad, tag=""):
+    """h_util.c: rbtree / str_table / array copies (search oracle, no model prediction involved)"""
+    exe = B.compile_harness(info, [os.path.join(HERE, "h_util.c")], "h_util_c19", includes=["-I" + HERE])
+    rounds = 3 if ctx.tier == "quick" else 60
+    env = dict(os.environ, ASAN_OPTIONS="detect_leaks=1:abort_on_error=0:allocator_may_return_null=1",
+               UBSAN_OPTIONS="halt_on_error=1:print_stacktrace=1")
+    try:
+        r = subprocess.run([exe, str(ctx.seed), str(rounds)], stdout=subprocess.PIPE, stderr=subprocess.PIPE,
+                           timeout=600, env=env)
+        out, err, rc = r.stdout.decode("utf-8", "replace"), r.stderr.decode("utf-8", "replace"), r.returncode
+    except subprocess.TimeoutExpired:
+        out, err, rc = "", "timeout", 124
+    st = dict(rc=rc, checks=0)
+    m = re.search(r"^OK (\d+)", out, re.M)
+    if rc == 0 and m:
+        st["checks"] = int(m.group(1))
+        ctx.coverage.setdefault("distribution", {})["container_copy_checks" + tag] = st["checks"]
+        return st
+    what = (re.search(r"^FAIL (.*)$", out, re.M).group(1) if re.search(r"^FAIL (.*)$", out, re.M)
+            else "sanitizer report / signal / leak: " + err[-700:])
+    kind = what.split(":")[0].split(" ")[0] if what.startswith(("rbtree", "str_table", "array")) else "crash"
+    ctx.violation("util:%s%s" % (kind, tag),
+                  "container copy violates C19 (h_util seed %d, %d rounds)%s: %s" % (ctx.seed, rounds, tag, what),
+                  dict(kind="util", cmd="h_util %d %d" % (ctx.seed, rounds), stdout=out[-500:], stderr=err[-1500:]))
+    return st
+
+
 def generate(ctx, rnd, images, n_cases):
     kinds = ["idtbl", "fragtbl", "xwr", "file", "meta", "dir", "data", "xrd"]
     cases = []
@@ -862,8 +889,14 @@ def run(ctx):
     prop_bad, tie_bad, stats = evaluate(ctx, cases, results, drv)
     ctx.log("model and comparison done")
 
+    # containers the copy hooks are built from (rbtree_copy, str_table_copy, array_init_copy): the property
+    # evaluated directly for every key/value size and alignment, with values whose every byte is significant
+    util_stats = run_util(ctx, info, prop_bad)
+    ctx.log("container copies done: %r" % (util_stats,))
+
     pool_stats = None
     if ctx.tier == "thorough":
+        run_util(ctx, B.build("plain", extra_cflags=B.SAN, tag="c19pool"), prop_bad, tag=":pool-allocator")
         info2, exe2 = build_all(ctx, variant_pool=True)
         res2 = run_harness(exe2, cases[:6000], timeout=900)
         pb2, _tb2, pool_stats = evaluate(ctx, cases[:6000], res2, drv)
@@ -948,6 +981,12 @@ def image_spec(c):
 
 def replay(ctx, rp, info, exe, drv):
     """re-run one stored case: regenerate its image (same tree seed, same compressor), same script"""
+    if rp.get("kind") == "util":
+        ctx.seed = int(rp.get("seed", ctx.seed))
+        run_util(ctx, info, [])
+        ctx.coverage["evaluations"] = 1
+        ctx.coverage["rule"] = "replay of " + ctx.replay
+        return
     cj = rp.get("case")
     if not cj:
         ctx.log("replay file has no case")
